@@ -126,7 +126,7 @@ func pluginRuns(c *Ctx, runs, stride int, scope func(class, sha, name, hermetic 
 	c.R.Cov["plugin_runs_validated"] = len(lines)
 	c.R.Cov["plugin_request_cases_in_model"] = res.Distinct / 2
 	if len(lines) > 0 {
-		c.R.Sample(json.RawMessage(trunc(lines[0], 600)))
+		c.R.Sample(trunc(lines[0], 600))
 	}
 }
 
